@@ -67,6 +67,18 @@ def problems():
                                              lambda t, y, p: np.array([-y[0] + y[1], y[1] - np.sin(t)]),
                                              lambda t, y, p: csc_array(np.array([[-1.0, 1.0], [0.0, 1.0]])), {}),
               np.array([1.0, 0.0]), lambda t: np.array([1.5 * np.exp(-t) + (np.sin(t) - np.cos(t)) / 2, np.sin(t)]), [0]))
+    # P4: forcing with the period of the integration span: F(t0, y) = F(tend, y) for every y, the problem is not autonomous
+    w = 2 * np.pi
+    P.append(("ode y'=-y+cos(2 pi t)", nDAE(csc_array(np.array([[1.0]])),
+                                            lambda t, y, p, w=w: -y + np.cos(w * t),
+                                            lambda t, y, p: csc_array(np.array([[-1.0]])), {}),
+              np.array([1.0 / (1 + w ** 2)]), lambda t, w=w: np.array([(np.cos(w * t) + w * np.sin(w * t)) / (1 + w ** 2)]), [0]))
+    # P5: the index-1 DAE of P2 with the algebraic equation written first: the 1 of the mass matrix is off the diagonal
+    P.append(("dae 0=z-x, x'=-xz (mass matrix off the diagonal)",
+              nDAE(csc_array((np.array([1.0]), (np.array([1]), np.array([0]))), shape=(2, 2)),
+                   lambda t, y, p: np.array([y[1] - y[0], -y[0] * y[1]]),
+                   lambda t, y, p: csc_array(np.array([[-1.0, 1.0], [-y[1], -y[0]]])), {}),
+              np.array([1.0, 1.0]), lambda t: np.array([1 / (1 + t), 1 / (1 + t)]), [0, 1]))
     return P
 
 
@@ -200,7 +212,7 @@ def run(rep, tier, seed):
             msg = judge(r)
             if msg:
                 fails.append((r, f"{scheme} on {prob[0]}: {msg}"))
-            if prob[0].startswith("ode"):
+            if prob[0].startswith("ode y'=cos"):        # the one-step ladder needs h well inside the asymptotic range of the problem
                 try:
                     r = local_dense_ladder(scheme, prob, [2, 3, 4, 5])
                 except Exception as ex:  # noqa
